@@ -132,10 +132,11 @@ def xyz : Factor → V3
   | .s k => V3.rep k
   | .v3 f => f
   | .v4 f _ => f
-/-- factor applied to the `radius` column by `TreeNeuron.__mul__/__truediv__` -/
+/-- factor applied to the `radius` column by `TreeNeuron.__mul__/__truediv__`: the number, the 4th component, or —
+for x/y/z operands, navis 549685a — the x component (`other = np.append(other, other[0])`) -/
 def rad : Factor → Rat
   | .s k => k
-  | .v3 _ => 1
+  | .v3 f => f.x
   | .v4 _ r => r
 def nz : Factor → Bool
   | .s k => k != 0
@@ -143,12 +144,13 @@ def nz : Factor → Bool
   | .v4 f r => f.nz && r != 0
 end Factor
 
-/-- Which operands `__mul__/__truediv__` accept without raising.  `TreeNeuron`: numbers and 4-vectors only
-(a 3-vector raises `ValueError`; an all-equal 3-vector passes the guard — `other == other[0]` is a no-op —
-and then fails in pandas).  The array types broadcast against `(N, 3)`: numbers and 3-vectors. -/
+/-- Which operands `__mul__/__truediv__` accept without raising.  `TreeNeuron`: numbers, 4-vectors (x, y, z, radius)
+and — since navis 549685a — 3-vectors (x, y, z; the radius is scaled like x; before, they raised `ValueError`, which
+made `convert_units` fail for skeletons with per-axis units).  The array types broadcast against `(N, 3)`: numbers
+and 3-vectors. -/
 def acceptsScale : Kind → Factor → Bool
   | .tree, .s _ => true
-  | .tree, .v3 _ => false
+  | .tree, .v3 _ => true
   | .tree, .v4 _ _ => true
   | _, .s _ => true
   | _, .v3 _ => true
@@ -162,12 +164,13 @@ def acceptsShift : Factor → Bool
 
 /-- `x * f` (`p`: the prefix `to_compact` picks).  Zero components are outside the model (`ZeroDivisionError`
 / `inf`).  Skeletons, meshes, dotprops: coordinates and connectors times `f`, `radius` times `f.rad`,
-units divided by `f`.  Voxels: the *units* (voxel size), the offset and the connectors are multiplied. -/
+units divided by `f`.  Voxels: the *units* (voxel size), the offset and the connectors are multiplied; the voxel
+size keeps its SI prefix (no `to_compact` since navis 881c0e3: offset and connectors live in the same unit). -/
 def mul (n : Neuron) (f : Factor) (p : Int) : Option Neuron :=
   if acceptsScale n.kind f && f.nz then
     match n.kind with
     | .voxel => some { n with
-        units := (⟨n.units.mag.mul f.xyz, n.units.base⟩ : Units).compact p,
+        units := ⟨n.units.mag.mul f.xyz, n.units.base⟩,
         offset := n.offset.mul f.xyz,
         conns := n.conns.map (fun c => c.mul f.xyz) }
     | _ => some { n with
@@ -182,7 +185,7 @@ def div (n : Neuron) (f : Factor) (p : Int) : Option Neuron :=
   if acceptsScale n.kind f && f.nz then
     match n.kind with
     | .voxel => some { n with
-        units := (⟨n.units.mag.div f.xyz, n.units.base⟩ : Units).compact p,
+        units := ⟨n.units.mag.div f.xyz, n.units.base⟩,
         offset := n.offset.div f.xyz,
         conns := n.conns.map (fun c => c.div f.xyz) }
     | _ => some { n with
@@ -242,8 +245,7 @@ def convFactor (u : Units) (tgt : Int) : Option V3 :=
   | .dimless => none
   | .metre e => some (u.mag.mul (V3.rep (pow10 e / pow10 tgt)))
 
-/-- `BaseNeuron.convert_units(to)`: `n *= conv` — a number for isometric units, an x/y/z array otherwise
-(which `TreeNeuron.__mul__` rejects). -/
+/-- `BaseNeuron.convert_units(to)`: `n *= conv` — a number for isometric units, an x/y/z array otherwise. -/
 def convertUnits (n : Neuron) (tgt : Int) (p : Int) : Option Neuron :=
   match convFactor n.units tgt with
   | none => none
@@ -264,15 +266,17 @@ def roundHalfEven (q : Rat) : Int :=
   else if 1 / 2 < q - f then f + 1
   else if f % 2 = 0 then f else f + 1
 
-/-- number of decimals `round_smart(num, prec=8)` keeps: `max(8 - N, 0)`, `N = int(log10 num)` for
-`num ≥ 1`, else `0`. -/
-def smartDecimals (q : Rat) : Nat :=
-  8 - (if q < 1 then 0 else ilog10 q.floor.toNat)
+def rabs (q : Rat) : Rat := if q < 0 then -q else q
 
-/-- `utils.round_smart` (`math.log10` raises for `num ≤ 0`). -/
+/-- number of decimals `round_smart(num, prec=8)` keeps: `max(8 - N, 0)`, `N = int(log10 |num|)` for
+`|num| ≥ 1`, else `0` (zero has no digits before the decimal; the sign does not count — navis 0b634c2). -/
+def smartDecimals (q : Rat) : Nat :=
+  8 - (if rabs q < 1 then 0 else ilog10 (rabs q).floor.toNat)
+
+/-- `utils.round_smart`: defined for every number since navis 0b634c2 (before, `math.log10` raised for
+`num ≤ 0`); kept `Option`-valued for the callers. -/
 def roundSmart (q : Rat) : Option Rat :=
-  if q ≤ 0 then none
-  else some ((roundHalfEven (q * (10 : Rat) ^ smartDecimals q) : Rat) / (10 : Rat) ^ smartDecimals q)
+  some ((roundHalfEven (q * (10 : Rat) ^ smartDecimals q) : Rat) / (10 : Rat) ^ smartDecimals q)
 
 /-- argument of `map_units`: a plain number, or a string / pint object parsed by pint -/
 inductive MapArg where
@@ -384,8 +388,6 @@ def applyOp (n : Neuron) (ids : Int × Int × Int) : Op → Option Neuron
   | .reinitAfterCut e => reinit (applyEdit (copy (copy n ids.1) ids.2.1) e) Option.none ids.2.2 ids.1
 
 /-! ## Decidable comparison used by the driver (tolerance in `Rat`) -/
-
-def rabs (q : Rat) : Rat := if q < 0 then -q else q
 
 /-- `|a - b| ≤ tol · max(1, |b|)` -/
 def closeR (tol a b : Rat) : Bool :=
